@@ -24,6 +24,10 @@ def corpus():
         "render kind=result s=0 f=0 d=4 it=4 st=0 dur=1000000000 failed=1",          # failed by drops only (D14: started must stay 0)
         "render kind=result s=0 f=0 d=0 it=0 st=0 dur=0 failed=1 err=2",
         "render kind=summary s=5 f=2 d=13",                                           # shares are of ALL iterations
+        "render kind=summary s=6 f=2 d=8 igndrop=1",                                  # … also when dropped iterations are ignored by the verdict
+        "render kind=summary s=6 f=2 d=8 igndrop=0",
+        "render kind=result s=3000000000000000 f=1000000000000000 d=0 it=4000000000000000 st=4000000000000000 dur=1000000000 failed=1",   # counts beyond 2^53 / 1.8e15
+        "render kind=result s=6000000000000000000 f=6000000000000000000 d=0 it=12000000000000000000 st=12000000000000000000 dur=1000000000 failed=1",
         "render kind=summary s=0 f=0 d=4 igndrop=0",
         "render kind=summary s=3 f=1 d=0 maxfail=5",
         "render kind=progress s=10 f=5 d=3 pcount=7 dur=100000000000 period=10000000000 tty=1",
@@ -36,8 +40,8 @@ def generate(rng, tier):
     n = {"quick": 1200, "thorough": 30000, "search": 15000}[tier]
     out = []
     for _ in range(n):
-        big = rng.random() < 0.05
-        hi = 10**12 if big else rng.choice([3, 20, 1000])
+        big = rng.random() < 0.08
+        hi = rng.choice([10**12, 10**16, 5 * 10**18]) if big else rng.choice([3, 20, 1000])
         s, f, d = (rng.choice([0, 0, rng.randint(0, hi)]) for _ in range(3))
         k = rng.random()
         tty = rng.randint(0, 1)
